@@ -11,17 +11,25 @@ def sh(cmd, cwd=None, timeout=900):
     p = subprocess.run(cmd, shell=True, cwd=cwd, env=ENV, capture_output=True, text=True, timeout=timeout)
     return p.returncode, (p.stdout + p.stderr)
 
+SRC, TAG = "/tmp/seeded", ""
+
 def main():
-    ids = sys.argv[1:] or sorted(os.path.basename(d) for d in glob.glob("/tmp/seeded/C??") if os.path.isdir(d))
+    global SRC, TAG
+    args = sys.argv[1:]
+    while args and args[0].startswith("--"):
+        if args[0] == "--src": SRC = args[1]
+        if args[0] == "--tag": TAG = args[1]
+        args = args[2:]
+    ids = args or sorted(os.path.basename(d) for d in glob.glob(SRC + "/C??") if os.path.isdir(d))
     sh("git -C /repo worktree remove --force %s" % WT)
     rc, out = sh("git -C /repo worktree add -q --detach %s HEAD" % WT)
     if rc != 0:
         print(out); return 2
     try:
         for pid in ids:
-            for md in sorted(glob.glob("/tmp/seeded/%s/mut*" % pid)):
+            for md in sorted(glob.glob(SRC + "/%s/mut*" % pid)):
                 k = os.path.basename(md)
-                name = "%s-%s" % (pid, k)
+                name = "%s-%s%s" % (pid, TAG, k)
                 dst = "/verif/seeded/%s" % name
                 if os.path.exists(os.path.join(dst, "meta.json")):
                     print(name, "already confirmed"); continue
